@@ -42,7 +42,8 @@ Init == \E kind \in KINDS : \E S \in (SUBSET Universe(kind)) \cup BigSets(kind) 
           /\ (ord = "nested") => (S # {} /\ S \notin BigSets(kind))
           /\ st = [kind |-> kind, used |-> S \cup Fixed(kind), turbo |-> 0 - 1, nrel |-> 0]
           /\ hist = <<[op |-> "init", kind |-> kind, ord |-> ord, used |-> Ordered(S \cup Fixed(kind), ord)]>>
-More == Len(hist) <= DEPTH
+\* (shape histories have eight kinds of step and three layings-out of the initial set: they stop one step earlier than DEPTH > 3 asks)
+More == Len(hist) <= (IF st.kind = "shape" /\ DEPTH > 3 THEN 3 ELSE DEPTH)
 
 DoAlloc(op) ==
   LET n == ImplNew(st.kind, op, st.used, st.turbo)
@@ -74,6 +75,6 @@ Next == Alloc \/ AllocGap \/ AllocIn \/ AllocFree \/ AllocAgain \/ Release \/ Tu
 Spec == Init /\ [][Next]_<<st, hist>>
 
 \* every maximal history is printed once (state = <st, hist>: a history is a state)
-Emit == (Len(hist) = DEPTH + 1) => PrintT(<<"H", ToJson(hist)>>)
+Emit == (Len(hist) = (IF st.kind = "shape" /\ DEPTH > 3 THEN 3 ELSE DEPTH) + 1) => PrintT(<<"H", ToJson(hist)>>)
 TypeOK == st.kind \in KINDS /\ st.turbo >= 0 - 1
 =============================================================================
